@@ -17,6 +17,14 @@ AOps  == IF Tier = "quick" THEN <<"+", "-", "*", "/">> ELSE <<"+", "-", "*", "/"
 AVals == <<I(0), I(1), I(2), I(3), I(5), I(300)>>
 NA    == Len(AVals)
 
+\* constant folding at the edges of 64 bits: every arithmetic operator on two inline integer literals chosen so that
+\* products and powers reach, cross and wrap around 2^63 / 2^64 (2 ** 64, 16 ** 16, 4096 * 4096 ...).  Where the
+\* reference leaves the value open (SKIP) the optimised and the unoptimised evaluator must still agree (C03).
+FOps  == <<"+", "-", "*", "/", "%", "**">>
+FVals == <<I(0), I(1), I(2), I(3), I(4), I(8), I(10), I(15), I(16), I(31), I(32), I(33), I(62), I(63), I(64), I(65),
+           I(100), I(128), I(255), I(256), I(4096), I(32767), I(65534)>>
+NF    == Len(FVals)
+
 NB == Len(BinOps)
 NU == Len(UnOps)
 
@@ -48,6 +56,8 @@ Init ==
        row = [k |-> "nest0", op1 |-> BinOps[o1], op2 |-> BinOps[o2], done |-> FALSE]
   \/ \E u \in 1..NU, o \in 1..NB :
        row = [k |-> "unbin0", op1 |-> UnOps[u], op2 |-> BinOps[o], done |-> FALSE]
+  \/ \E o \in 1..Len(FOps) :
+       row = [k |-> "fold0", op |-> FOps[o], done |-> FALSE]
   \/ \E sh \in 1..5, o1 \in 1..Len(AOps), o2 \in 1..Len(AOps) :
        row = [k |-> "arith0", sh |-> sh, op1 |-> AOps[o1], op2 |-> AOps[o2], done |-> FALSE]
 
@@ -64,6 +74,11 @@ Next ==
           /\ (Tier = "thorough" \/ (a + 2 * b + 3 * c + 5 * d + row.sh + o3 + Seed - 1) % 8 = 0)
           /\ LET e == Group3(row.sh, row.op1, row.op2, AOps[o3], Lit(AVals[a]), Lit(AVals[b]), Lit(AVals[c]), Lit(AVals[d]))
              IN row' = [k |-> "arith3", prov |-> "llll", e |-> e, exp |-> EvalE(e), done |-> TRUE]
+  \/ /\ row.k = "fold0"
+     /\ \E a \in 1..NF, b \in 1..NF :
+          row' = [k |-> "fold2", prov |-> "ll",
+                  e |-> <<"bin", row.op, Lit(FVals[a]), Lit(FVals[b])>>,
+                  exp |-> Bin(row.op, FVals[a], FVals[b]), done |-> TRUE]
   \/ /\ row.k = "bin0"
      /\ \E j \in 1..NV, p \in 1..Len(Provs) :
           \* quick: literal operands for every cell, other provenances for a quarter of them
